@@ -102,7 +102,9 @@ func main() {
 	par := fs.Int("par", 64, "concurrent expiry histories")
 	lead := fs.Int("lead", 150, "ms between token creation and its expiration time")
 	margin := fs.Int("margin", 250, "ms after the expiration time at which `expire` returns")
+	perturb := fs.String("perturb", "", "selftest shim: drop-last | flip-flag (falsifies the recorded result of the real call)")
 	fs.Parse(os.Args[2:])
+	filterh.Perturb = *perturb
 	if *outp == "" {
 		die("-out required")
 	}
